@@ -94,6 +94,10 @@ def run(ctx):
     d = data['d']
     # the unit the features are measured in (squared distances, bounds and dual variables scale with units^2)
     prior = ['identity', 'covariance', 'random', 'array'][i % 4 if name == 'ITML' else int(rng.integers(0, 4))]
+    force_layout = None
+    if name == 'ITML' and i % 8 == 5:
+      prior = 'array'                    # plain ITML with an array prior, Fortran-ordered and C-ordered in turn
+      force_layout = ['F', 'C'][(i // 8) % 2]
     # the unit the features are measured in.  With a prior expressed in the same units (covariance, or a given
     # array scaled by 1/units^2) learned distances and bounds are unit-free; with a fixed prior (identity, random)
     # squared distances scale with units^2 and so must explicit bounds: large units are then drawn only together
@@ -111,6 +115,9 @@ def run(ctx):
     kw = dict(gamma=gam, max_iter=int(rng.choice([1, 2, 5, 20, 200])),
               prior=prior if prior != 'array' else fits.spd_array(rng, d) / units ** 2,
               random_state=int(rng.integers(0, 100)), tol=float([1e-3, 1e-3, 1e-6, 1e-9][int(rng.integers(0, 4))]))
+    if force_layout is not None:
+      kw['prior'] = np.asfortranarray(kw['prior']) if force_layout == 'F' else np.ascontiguousarray(kw['prior'])
+      ctx.hist('array_prior_layout', force_layout)
     if name == 'ITML_Supervised':
       kw['n_constraints'] = int(rng.integers(5, 20))
     bounds = None
@@ -128,7 +135,14 @@ def run(ctx):
       est, cap, A0 = fit_observed(name, kw, data, bounds)
     except Exception as ex:
       Ax = getattr(ex, 'solver_state', {}).get('A')
-      if type(ex).__name__ == 'NonPSDError' and Ax is not None and np.isfinite(Ax).all():
+      # (only with hard constraints, gamma = inf: with a finite gamma the slack keeps every step bounded and a failure is reported)
+      from_converter = np.isinf(gam) and (type(ex).__name__ == 'NonPSDError' or 'should be symmetric' in str(ex))
+      if from_converter and Ax is not None and not np.isfinite(Ax).all():
+        # hard constraints (gamma = inf) that cannot be met with bounds in another unit than the prior: the iterate overflows
+        ctx.count('fit_runs', 0, skipped=1)
+        ctx.hist('skipped_ill_conditioned', 'iterate overflowed (gamma = inf, bounds and prior in different units)')
+        continue
+      if from_converter and Ax is not None:
         ev = np.linalg.eigvalsh((Ax + Ax.T) / 2)
         if ev[-1] > 0 and abs(ev[0]) <= 1e-10 * ev[-1]:
           # the iterate is positive definite in exact arithmetic (C11_partial) but numerically singular (hard constraints that
@@ -166,10 +180,10 @@ def run(ctx):
     lo, hi = float(est.bounds_[0]), float(est.bounds_[1])
     inp = dict(estimator=name, params=opt, X=data['X'].tolist(), pairs_idx=data['pairs_idx'].tolist(), y=data['ypairs'].tolist())
     cond = float(np.linalg.cond(M))
-    if cond > 1e7 or lo < 1e-6 * hi:
+    if cond > 1e6 or lo < 1e-6 * hi:       # (the residual of M B = I grows like cond * eps * a few hundred: 1e-7 at cond 1e6, against the tolerance 1e-6)
       # e.g. a default lower bound of 0 (replaced by 1e-9): the certificate's residual is dominated by rounding
       ctx.count('certificate', 1, skipped=1)
-      ctx.hist('skipped_ill_conditioned', 'cond>1e7 or bounds_[0]<1e-6*bounds_[1]')
+      ctx.hist('skipped_ill_conditioned', 'cond>1e6 or bounds_[0]<1e-6*bounds_[1]')
       continue
     r = certificate_np(M, A0, vs, ys, lams)
     ctx.count('certificate', 1)
@@ -204,25 +218,27 @@ def run(ctx):
   for rep in range(12 if thorough else 5):
     data = fits.make_data(rng, d=int(rng.integers(2, 5)))
     d = data['d']
-    gam = [0.5, 1.0, 4.0, np.inf, float('inf')][int(rng.integers(0, 5))]
+    gam = [0.5, 4.0, 1.0, np.inf, float('inf')][rep % 5]          # every value in every run: the slack enters the step only for gamma != 1
     P0 = fits.spd_array(rng, d)
     use_cov = bool(rng.random() < 0.4)
-    tol = float([1e-3, 1e-6][int(rng.integers(0, 2))])
+    tol = float([1e-6, 1e-6, 1e-3, 1e-6, 1e-3][rep % 5])
     b0 = np.array([float(rng.choice([0.5, 1.0])), float(rng.choice([3.0, 6.0]))])
     runs = {}
     for u in (1.0, 2.0 ** 14, 2.0 ** 20, 2.0 ** -12):
       du = dict(data)
       du['X'] = data['X'] * u
-      kw = dict(gamma=gam, max_iter=300, tol=tol, prior='covariance' if use_cov else np.ascontiguousarray(P0) / u ** 2)
+      fixed_prior = (rep % 5 == 2)       # identity prior: the matrix is unit-free when the BOUNDS are given in the data's squared unit
+      kw = dict(gamma=gam, max_iter=300, tol=tol,
+                prior='identity' if fixed_prior else ('covariance' if use_cov else np.ascontiguousarray(P0) / u ** 2))
       try:
-        est, cap, A0 = fit_observed('ITML', kw, du, b0.copy())      # learned distances, hence bounds, are unit-free
+        est, cap, A0 = fit_observed('ITML', kw, du, b0.copy() * (u ** 2 if fixed_prior else 1.0))      # learned distances, hence bounds, are unit-free
       except Exception as ex:
         runs[u] = ('raises ' + type(ex).__name__, None, None)
         continue
       vs = np.vstack([cap['pos_vv'], cap['neg_vv']])
       ys = np.array([1] * len(cap['pos_vv']) + [-1] * len(cap['neg_vv']))
       bh = np.concatenate([cap['pos_bhat'], cap['neg_bhat']])
-      runs[u] = (int(est.n_iter_), est.get_mahalanobis_matrix() * u ** 2, kkt_residual(cap['A'], cap['_lambda'], bh, vs, ys))
+      runs[u] = (int(est.n_iter_), est.get_mahalanobis_matrix() * (1.0 if fixed_prior else u ** 2), kkt_residual(cap['A'], cap['_lambda'], bh, vs, ys))
     ctx.count('units', 1)
     ref = runs[1.0]
     inp = dict(estimator='ITML', X=data['X'].tolist(), pairs_idx=data['pairs_idx'].tolist(), y=data['ypairs'].tolist(),
@@ -230,6 +246,12 @@ def run(ctx):
     if isinstance(ref[0], str) or np.linalg.cond(ref[1]) > 1e7:
       ctx.count('units', 0, skipped=1)
       continue
+    # the run in units of 1: when it reports convergence with a small tol, every constraint is inactive or tight
+    if ref[0] < 299 and tol <= 1e-6:
+      ctx.count('converged_kkt', 1)
+      if ref[2] > 1e3 * tol:
+        ctx.fail_input('converged_kkt', 'the solver reports convergence (n_iter_ < max_iter - 1) but a constraint is neither inactive nor tight',
+                       inp, observed=dict(n_iter=ref[0], relative_residual=ref[2], tol=tol))
     for u, got in runs.items():
       if u == 1.0:
         continue
